@@ -59,7 +59,17 @@ func (e *Exec) atCalls(fr *Frame, cfr *Frame, st *State, cc *ssa.CallCommon, pos
 		// arg0.. = the actual arguments of this call (receiver excluded)
 		cargs := cc.Args
 		if f := cc.StaticCallee(); f != nil && f.Signature.Recv() != nil && len(cargs) > 0 {
+			// callrecv = the receiver of this method call
+			if rv := e.val(cfr, st, cargs[0]); rv.Tuple == nil && rv.T != "" {
+				rv.Typ = cargs[0].Type()
+				env.vars["callrecv"] = rv
+			}
 			cargs = cargs[1:]
+		} else if cc.IsInvoke() {
+			if rv := e.val(cfr, st, cc.Value); rv.Tuple == nil && rv.T != "" {
+				rv.Typ = cc.Value.Type()
+				env.vars["callrecv"] = rv
+			}
 		}
 		for i, a := range cargs {
 			if i >= 4 {
@@ -465,9 +475,13 @@ func (e *Exec) libDefault(fr *Frame, st *State, key string, args []Val, sig *typ
 		e.sc.used["pure library function (no effect on verified state): "+key] = true
 	}
 	res := e.resultVal(st, "lib", sig)
-	// path flags succeeded("key") / called("key") also work for library calls named in the contract
+	// path flags succeeded("key") / called("key") / calls("key") also work for library calls named in the contract
 	if e.calledNamed[key] {
 		e.hset(st, e.calledFlag(key), "true")
+	}
+	if e.callsNamed[key] {
+		c := e.callsCounter(key)
+		e.hset(st, c, "(+ "+e.hget(st, c)+" 1)")
 	}
 	if e.succNamed[key] {
 		var last Val
@@ -1004,6 +1018,9 @@ func (e *Exec) callEffects(fr *Frame, cc *ssa.CallCommon, depth int) (maps []str
 	}
 	if e.succNamed[key] {
 		set[e.succFlag(key)] = true
+	}
+	if e.callsNamed[key] {
+		set[e.callsCounter(key)] = true
 	}
 	args := cc.Args
 	if cc.IsInvoke() {
